@@ -1160,7 +1160,7 @@ func run(c *hx.Ctx) {
 	if !ok {
 		panic("unknown property " + c.Prop)
 	}
-	c.Rule = "one case = one script of 6-40 scripted operations (listen start/cancel/usurp, session attach/usurp/detach/re-attach, sends with good/foreign/tampered/wrong-context/unsigned/spoofed signatures made with real keys, current/stale/future session seqnos, solicited and unsolicited ack/clear, requests before Init, stream errors) applied to a fresh real Server by 3-4 authenticated clients, waiting for quiescence after every operation; compared: every stream's responses, every call's final error class, map sizes after every operation, final trackers and sessions; non-trivial = script with a delivered message or a listen call"
+	c.Rule = "one case = one script of 6-40 scripted operations (listen start/cancel/usurp, session attach/usurp/detach/re-attach, sends with good/foreign/tampered/wrong-context/unsigned/spoofed signatures made with real keys, stateful variants derived from messages the same stream submitted before (same signature+sender+seqno with another body / hash type / sender, same signed bytes under another seqno, byte-identical retransmit, also across re-opens), current/stale/future session seqnos, solicited and unsolicited ack/clear, requests before Init, stream errors) applied to a fresh real Server by 3-4 authenticated clients, waiting for quiescence after every operation; compared: every stream's responses, every call's final error class, map sizes after every operation, final trackers and sessions; non-trivial = script with a delivered message or a listen call"
 	fixed(c)
 	for i := 0; i < c.N; i++ {
 		np := 3
